@@ -79,12 +79,17 @@ type slotCall struct {
 }
 
 type slotRound struct {
-	calls   []*slotCall // returned calls
-	blocked []string    // ids still inside the call minStall after their deadline (released only by the end of the hang)
-	never   []string    // ... and not even back 10 s after the dial was released
-	started time.Time
-	end     time.Time
-	stacks  string
+	calls    []*slotCall // (appended by the callers under a lock)
+	returned []*slotCall // snapshot of the calls that had returned when the round ended
+	blocked  []string    // ids still inside the call minStall after their deadline (released only by the end of the hang)
+	never    []string    // ... and not even back 10 s after the dial was released
+	started  time.Time
+	end      time.Time
+	stacks   string
+	// controlLag: next to the k callers run k control goroutines that were started by the same
+	// goroutine at the same moment and do nothing but wait on a fresh timer of the same duration;
+	// this is how late the latest of them woke up (runtime / OS scheduling, not fasthttp).
+	controlLag atomic.Int64
 }
 
 func runSlotRound(idx, round int, k int, timeout time.Duration, srv *tagsrv.Server) *slotRound {
@@ -133,8 +138,25 @@ func runSlotRound(idx, round int, k int, timeout time.Duration, srv *tagsrv.Serv
 			mu.Unlock()
 		}(g)
 	}
+	var cwg sync.WaitGroup
+	for g := 0; g < k; g++ {
+		cwg.Add(1)
+		go func() {
+			defer cwg.Done()
+			t0 := time.Now()
+			tm := time.NewTimer(timeout)
+			<-tm.C
+			lag := int64(time.Since(t0) - timeout)
+			for {
+				old := res.controlLag.Load()
+				if lag <= old || res.controlLag.CompareAndSwap(old, lag) {
+					break
+				}
+			}
+		}()
+	}
 	done := make(chan struct{})
-	go func() { wg.Wait(); close(done) }()
+	go func() { wg.Wait(); cwg.Wait(); close(done) }()
 	stillIn := func(past time.Duration) (ids []string) {
 		now := time.Now()
 		for g := range inCall {
@@ -165,5 +187,8 @@ func runSlotRound(idx, round int, k int, timeout time.Duration, srv *tagsrv.Serv
 		res.never = stillIn(0)
 	}
 	res.end = time.Now()
+	mu.Lock()
+	res.returned = append([]*slotCall(nil), res.calls...)
+	mu.Unlock()
 	return res
 }
